@@ -7,6 +7,7 @@ package main
 import (
 	"fmt"
 	"go/types"
+	"math"
 	"strings"
 
 	"golang.org/x/tools/go/ssa"
@@ -202,6 +203,17 @@ func init() {
 		}
 		in.observed = append(in.observed, in.conStr(a[0], "ObserveStr")+" "+val)
 		return nil
+	})
+	// SameF64: identity of float64 values (SMT-LIB "=": same bit pattern class, NaN = NaN)
+	v("SameF64", func(in *Interp, a []Value) Value {
+		x, y := a[0].(*Term), a[1].(*Term)
+		if x == y {
+			return in.F.Bool(true)
+		}
+		if x.konst && y.konst {
+			return in.F.Bool(math.Float64bits(x.fv) == math.Float64bits(y.fv))
+		}
+		return in.F.mk("=", BoolSort, 0, 0, x, y)
 	})
 	v("Yield", func(in *Interp, a []Value) Value { in.sched.yield(); return nil })
 	v("Settle", func(in *Interp, a []Value) Value {
@@ -872,6 +884,26 @@ func (in *Interp) stringify(caller *Frame, v Value) (string, bool) {
 	return "", false
 }
 
+// symPlaceholder stands for the rendering of a symbolic value. It is only
+// acceptable inside error messages (fmt.Errorf); anywhere else the formatted
+// text could influence behaviour, so the path is declared unsupported.
+func (in *Interp) symPlaceholder() string {
+	if in.symFmtOK == 0 {
+		panic(&pathEnd{kind: "unsupported", msg: "formatting of a symbolic value outside an error message"})
+	}
+	in.noteOnce("text of error messages that format symbolic values is a placeholder")
+	return "<sym>"
+}
+
+func (in *Interp) noteOnce(note string) {
+	for _, x := range in.res.Assumes {
+		if x == note {
+			return
+		}
+	}
+	in.res.Assumes = append(in.res.Assumes, note)
+}
+
 func (in *Interp) nativeArg(caller *Frame, verb byte, v Value) (interface{}, bool) {
 	iv, ok := v.(Iface)
 	if !ok {
@@ -889,12 +921,12 @@ func (in *Interp) nativeArg(caller *Frame, verb byte, v Value) (interface{}, boo
 	case Str:
 		s, ok := x.Concrete()
 		if !ok {
-			return "<sym>", true
+			return in.symPlaceholder(), true
 		}
 		return s, true
 	case *Term:
 		if !x.konst {
-			return "<sym>", true
+			return in.symPlaceholder(), true
 		}
 		if x.sort.K == SBool {
 			return x.cv == 1, true
@@ -916,7 +948,7 @@ func (in *Interp) nativeArg(caller *Frame, verb byte, v Value) (interface{}, boo
 			switch ev := e.(type) {
 			case *Term:
 				if !ev.konst {
-					return "<sym>", true
+					return in.symPlaceholder(), true
 				}
 				bs = append(bs, byte(ev.cv))
 			case Str:
@@ -980,7 +1012,9 @@ func (in *Interp) fmtErrorf(caller *Frame, format Str, args SliceV) Value {
 		panic(&pathEnd{kind: "unsupported", msg: "Errorf with symbolic format"})
 	}
 	els := in.sliceElems(args)
+	in.symFmtOK++
 	msg := in.sprintf(caller, f, els)
+	in.symFmtOK--
 	// find %w operands
 	var wrapped []Iface
 	ai := 0
